@@ -401,6 +401,8 @@ def unsafe_sites(chk, F):
     n_nest = 0
     n_forward = 0
     for b in F.bodies.values():
+        if facts.binding_layer(b["path"]):
+            continue  # pyo3-generated trampolines: outside the conversions this property is about
         blocks = []
         for n in walk.walk_body(b):
             if n.get("k") == "block" and n["b"].get("unsafe"):
